@@ -21,7 +21,8 @@ Formalisation choices (the text is silent; the reading the code implements consi
 * arithmetic: int64 wraps, division truncates, `x / 0` is `Nothing`, mixed int/float operands are
   converted to binary64 first (the usual arithmetic conversion — rounding there is the defined result,
   unlike in comparisons), `+` concatenates two strings, anything else is `Nothing`;
-* `length` counts bytes / elements / members; `count` applies to a path and counts selected nodes;
+* `length` counts bytes / elements / members; `count` applies to a path and counts the nodes it selects
+  with the element under test as its root (also for a path written with `$`);
   `match` anchors the pattern at both ends, `search` does not; an empty or invalid pattern gives
   `Nothing` for the two functions and `false` for `=~`;
 * a script that consists of a path only is an existence test (RFC 9535 §2.3.5; what `jp.NewScript`
@@ -213,9 +214,12 @@ def eval (rx : RxEngine) : Tm → Val
 def choices (elem root : Val) : Tm → List Tm
   | .const v => [.const v]
   | .path p => (candidates p elem root).map .const
-  | .app1 .count (.path p) => [.app1 .count (.const (.arr (sel p elem elem)))]
-  | .app1 .count _ => [.const .nothing]
-  | .app1 o a => (choices elem root a).map (.app1 o)
+  | .app1 o a =>
+    if o = .count then
+      match a with
+      | .path p => [.app1 .count (.const (.arr (sel p elem elem)))]
+      | _ => [.const .nothing]
+    else (choices elem root a).map (.app1 o)
   | .app2 o a b => (choices elem root a).flatMap fun a' => (choices elem root b).map fun b' => .app2 o a' b'
 
 /-- a path alone is an existence test -/
